@@ -115,8 +115,8 @@ theorem copy_uncompressed_name_eq (p : Bytes) (pre : Bytes) (off : Nat) :
 
 /-! the dictionary's comparison -/
 
-theorem toLowerB_toNat (c : UInt8) : (toLowerB c).toNat = Tr.Reader.asciiLower c.toNat := by
-  unfold toLowerB Tr.Reader.asciiLower
+theorem toLowerB_toNat (c : UInt8) : (toLowerB c).toNat = Tr.asciiLower c.toNat := by
+  unfold toLowerB Tr.asciiLower
   split
   · rename_i h
     have : c.toNat + 32 < 256 := by omega
@@ -132,7 +132,7 @@ theorem u8_beq (x y : UInt8) : (x == y) = (x.toNat == y.toNat) := by
     rw [a, b]
 
 theorem eqIgnoreCase_eq (a b : UInt8) :
-    eqIgnoreCase a b = (Tr.Reader.asciiLower a.toNat == Tr.Reader.asciiLower b.toNat) := by
+    eqIgnoreCase a b = (Tr.asciiLower a.toNat == Tr.asciiLower b.toNat) := by
   unfold eqIgnoreCase
   rw [u8_beq, toLowerB_toNat, toLowerB_toNat]
 
